@@ -1,6 +1,8 @@
 #!/usr/bin/env python3
-"""setup_cmd: nothing to build (pure python + installed tools); verify the tool chain is present."""
-import shutil, sys, subprocess
+"""setup_cmd: nothing to build (pure python + installed tools); verify the tool chain is present and that the path engine
+still decides a small sample correctly (one entry that holds, one with a planted violation, exceptions, heap)."""
+import shutil, sys, subprocess, os, tempfile, json
+HERE = os.path.dirname(os.path.abspath(__file__))
 need = ["clang++-14", "cbmc", "goto-cc", "z3", "g++", "gcc"]
 missing = [t for t in need if shutil.which(t) is None]
 if missing:
@@ -9,4 +11,20 @@ try:
     import z3  # noqa
 except Exception as e:
     print("z3 python binding missing:", e); sys.exit(1)
+d = tempfile.mkdtemp(prefix="vp_self_")
+try:
+    ll = os.path.join(d, "s.ll")
+    r = subprocess.run(["clang++-14", "-std=c++17", "-O1", "-fno-vectorize", "-fno-slp-vectorize", "-fno-unroll-loops", "-D_GLIBCXX_ASSERTIONS",
+                        "-I" + os.path.join(os.path.dirname(HERE), "harness"), "-S", "-emit-llvm", os.path.join(HERE, "selfcheck", "engine_sample.cpp"), "-o", ll], capture_output=True, text=True)
+    if r.returncode != 0:
+        print("clang failed on the engine sample:", r.stderr[-500:]); sys.exit(1)
+    want = {"vp_main_t1": ("held", None), "vp_main_t2": ("violated", "VP:x is not 200")}
+    for entry, (status, label) in want.items():
+        out = os.path.join(d, entry + ".json")
+        subprocess.run([sys.executable, os.path.join(HERE, "llpath.py"), ll, entry, "--json", out, "--wall", "60"], capture_output=True, text=True)
+        res = json.load(open(out))
+        if res["status"] != status or (label and label not in [v["label"] for v in res["violations"]]) or "end" not in res["reach"]:
+            print("path engine self-check failed on", entry, res["status"], res["note"]); sys.exit(1)
+finally:
+    shutil.rmtree(d, ignore_errors=True)
 print("vp selftest ok")
